@@ -284,6 +284,16 @@ async fn dial_happy_eyeballs(
             dials.push(
                 async move {
                     trace!("connecting TCP stream");
+                    #[cfg(iroh_verif)]
+                    if let Some(connect) = VERIF_CONNECTOR.get() {
+                        // verification hook: same per-attempt timeout, the connect itself is injected
+                        let stream = time::timeout(DIAL_ENDPOINT_TIMEOUT, connect(addr))
+                            .await
+                            .map_err(DialError::from)
+                            .and_then(|res| res.map_err(DialError::from))?;
+                        stream.set_nodelay(true)?;
+                        return Ok(stream);
+                    }
                     let stream = time::timeout(DIAL_ENDPOINT_TIMEOUT, TcpStream::connect(addr))
                         .await
                         .map_err(DialError::from)
@@ -348,6 +358,28 @@ async fn dial_happy_eyeballs(
             () = &mut next_dial_delayed_until, if next_dial_delayed_until.is_some() => {},
         }
     }
+}
+
+/// Verification hook (only with `--cfg iroh_verif`): when set, [`dial_happy_eyeballs`] calls this instead
+/// of [`TcpStream::connect`], so that a conformance harness can script the outcome and timing of every
+/// connection attempt.
+#[cfg(iroh_verif)]
+pub static VERIF_CONNECTOR: std::sync::OnceLock<
+    Box<
+        dyn Fn(SocketAddr) -> n0_future::boxed::BoxFuture<std::io::Result<TcpStream>>
+            + Send
+            + Sync,
+    >,
+> = std::sync::OnceLock::new();
+
+/// Verification hook (only with `--cfg iroh_verif`): public entry to [`dial_happy_eyeballs`].
+#[cfg(iroh_verif)]
+pub async fn verif_dial_happy_eyeballs(
+    dns_resolver: &DnsResolver,
+    url: &Url,
+    prefer_ipv6: bool,
+) -> Result<TcpStream, DialError> {
+    dial_happy_eyeballs(dns_resolver, url, prefer_ipv6).await
 }
 
 /// Removes the next address to attempt, preferring `*next_is_v6`'s family and
